@@ -36,7 +36,7 @@ type c10req struct {
 	queued    bool          // pushed onto the heap (dpq.queued)
 	queuedSeq uint64
 	stamp     int64 // engine timestamp of the request, unix ns (rank tie-break)
-	left      bool   // gave its waiter slot back (dpq.left)
+	left      bool  // gave its waiter slot back (dpq.left)
 	leftSeq   uint64
 	immediate bool // admitted at once (dpq.immediate)
 	refused   bool // refused at once (dpq.refused)
@@ -59,7 +59,7 @@ func runC10(s *kernel.Sim) {
 	quota := int64(tp.Range(1, 2))
 	winS := tp.Range(1, 5)
 	qsize := int64(tp.Range(1, 4))
-	ttlS := winS*tp.Range(1, 3) + tp.Choose(2)
+	ttlS := tp.Range(1, 3*winS)
 	nArr := tp.Range(2, 9)
 	usePrio := tp.Chance(2, 3)
 	hookOn := tp.Chance(3, 4)
@@ -130,7 +130,7 @@ func runC10(s *kernel.Sim) {
 		case "dpq.granted":
 			r.granted, r.grantT, r.grantSeq = true, s.Now(), s.Seq()
 		case "dpq.missed":
-			if !r.done {
+			if !r.left {
 				r.missed, r.missedSeq = true, s.Seq()
 				s.Probe("handoff_missed_while_waiting")
 			} else {
